@@ -85,7 +85,7 @@ COMMON_ASSUMPTIONS = [
 
 PROPS = {
     "C01": {
-        "mc": DEC_MODELS + ["len_tlc", "len_base", "len_step", "len_progress"], "gen": ["decode", "avps", "payload", "decode_big", "many_avps", "avp_lengths", "octet_sweep"],
+        "mc": DEC_MODELS + ["len_tlc", "len_base", "len_step", "len_progress"], "gen": ["decode", "avps", "payload", "decode_big", "many_avps", "avp_lengths", "octet_sweep", "text_classes", "record_product"],
         "rule": "TLC-explored boundary grammars of the decoder machine (every run exported and replayed) + seeded "
                 "random / mutated / raw inputs through both entry points, the bare AVP list reader and the per-type "
                 "readers, in a dev build (overflow checks, debug assertions) and a release build, under catch_unwind "
@@ -102,7 +102,7 @@ PROPS = {
                                              "reveal() builds its own SliceReader, so only its requests' bounds (C13) apply there"],
     },
     "C03": {
-        "mc": ["enc_avps", "enc_msgs", "enc_sizes", "enc_huge"], "gen": ["roundtrip_ctl", "many_avps", "small_values", "avp_lengths", "kind_pairs"],
+        "mc": ["enc_avps", "enc_msgs", "enc_sizes", "enc_huge"], "gen": ["roundtrip_ctl", "many_avps", "small_values", "avp_lengths", "kind_pairs", "text_classes", "rfc_messages"],
         "rule": "value catalogue explored by TLC on the Encoder machine with the specification's decoder applied to the "
                 "result (RoundTrip invariant), each behaviour replayed; seeded random control messages (0..12 AVPs) and "
                 "AVPs of all 40 variants with boundary sizes of the variable parts, up to 65 535-octet messages",
@@ -115,20 +115,20 @@ PROPS = {
         "assumptions": COMMON_ASSUMPTIONS,
     },
     "C05": {
-        "mc": DEC_MODELS + ["dec_flagsq"], "gen": ["decode", "avps", "payload", "flags", "ignored", "decode_big", "many_avps", "small_values", "bits", "avp_lengths", "kind_pairs", "octet_sweep"],
+        "mc": DEC_MODELS + ["dec_flagsq"], "gen": ["decode", "avps", "payload", "flags", "ignored", "decode_big", "many_avps", "small_values", "bits", "avp_lengths", "kind_pairs", "octet_sweep", "text_classes", "rfc_messages", "record_product"],
         "rule": "every decode outcome (verdict, value field for field, per-record results) compared with the TLA+ "
                 "decoder's result for the same octets: TLC boundary grammars, flag words under all option sets, seeded "
                 "random / mutated / raw inputs, and pairs differing only in octets the specification ignores",
         "assumptions": COMMON_ASSUMPTIONS,
     },
     "C06": {
-        "mc": ENC_MODELS, "gen": ["encode", "encode_seq", "bitmask", "small_values", "many_avps", "avp_lengths", "kind_pairs"],
+        "mc": ENC_MODELS, "gen": ["encode", "encode_seq", "bitmask", "small_values", "many_avps", "avp_lengths", "kind_pairs", "text_classes", "rfc_messages"],
         "rule": "octets emitted for the TLC value catalogue and for seeded random values (all AVP variants, control and "
                 "data messages, in and out of the round-trip domain) compared octet for octet with the TLA+ encoder",
         "assumptions": COMMON_ASSUMPTIONS,
     },
     "C07": {
-        "mc": ["enc_sizes", "enc_avps", "enc_huge", "enclen_tlc", "enclen_base", "enclen_step"], "gen": ["encode", "encode_seq", "small_values", "avp_lengths", "kind_pairs"],
+        "mc": ["enc_sizes", "enc_avps", "enc_huge", "enclen_tlc", "enclen_base", "enclen_step"], "gen": ["encode", "encode_seq", "small_values", "avp_lengths", "kind_pairs", "text_classes", "rfc_messages"],
         "rule": "size boundaries of the 10-bit AVP length (values of 1015..1019, 2000 octets) and of the 16-bit message "
                 "length (65 534..65 536 octets), plus seeded random values; panic iff the specification's encoder refuses; "
                 "an independent walk over the emitted length fields; get_length against the emitted size",
@@ -143,35 +143,35 @@ PROPS = {
         "assumptions": COMMON_ASSUMPTIONS,
     },
     "C09": {
-        "mc": ["enc_avps", "enc_msgs", "enc_sizes", "session_q", "session_t", "enclen_tlc", "enclen_base", "enclen_step"], "gen": ["encode", "encode_seq", "many_avps", "avp_lengths", "kind_pairs"],
+        "mc": ["enc_avps", "enc_msgs", "enc_sizes", "session_q", "session_t", "enclen_tlc", "enclen_base", "enclen_step"], "gen": ["encode", "encode_seq", "many_avps", "avp_lengths", "kind_pairs", "rfc_messages"],
         "rule": "encodes into writers pre-filled with 0..300 octets (VecWriter and a monitoring writer that logs every "
                 "append and positional overwrite), sequences of 1..5 values into one writer; TLC: OnlyAppend / "
                 "PatchInsideFrame / AppendOrPatch on the Encoder machine, WriterIsConcat on the session machine",
         "assumptions": COMMON_ASSUMPTIONS,
     },
     "C10": {
-        "mc": ["dec_framing", "dec_avprec", "dec_kinds", "dec_data", "dec_loop3", "dec_loop4"], "gen": ["chain", "many_avps", "small_values", "avp_lengths", "kind_pairs", "octet_sweep"],
+        "mc": ["dec_framing", "dec_avprec", "dec_kinds", "dec_data", "dec_loop3", "dec_loop4"], "gen": ["chain", "many_avps", "small_values", "avp_lengths", "kind_pairs", "octet_sweep", "text_classes", "rfc_messages"],
         "rule": "decode -> encode -> strict decode -> encode chains from non-canonical accepted inputs (reserved bits, P/O "
                 "and version under lax options, unset M bit, reserved AVP bits, surplus payload, trailing octets) under "
                 "all option sets; TLC: Normalises on every accepted run of the decoder grammars",
         "assumptions": COMMON_ASSUMPTIONS,
     },
     "C11": {
-        "mc": ["hid_hide"], "gen": ["hide_reveal", "reveal_plain", "hide"],
+        "mc": ["hid_hide"], "gen": ["hide_reveal", "reveal_plain", "hide", "text_classes"],
         "rule": "all 39 kinds x secrets {empty,1,15,64 octets,...} x length paddings hitting 1..6 (thorough: ..63) blocks and "
                 "exact multiples of 16; directly and after encode/decode of the hidden AVP; TLC: RevealHide with a toy "
                 "hash over every plaintext length for 1..4 blocks and paddings 0..20",
         "assumptions": COMMON_ASSUMPTIONS,
     },
     "C12": {
-        "mc": ["hid_hide"], "gen": ["hide", "hide_reveal", "reveal"],
+        "mc": ["hid_hide"], "gen": ["hide", "hide_reveal", "text_classes"],
         "rule": "hidden values compared with RFC 2661 s4.3 computed by TLC with MD5 written in TLA+ (RFC 1321 vectors "
                 "assumed at load); block counts 1..8 (thorough: ..63); reveal of arbitrary hidden values likewise; "
                 "TLC: declarative definition = in-place loops, HiddenLength",
         "assumptions": COMMON_ASSUMPTIONS + ["MD5 in TLC costs ~30 ms per block, so cases are chosen rather than many"],
     },
     "C13": {
-        "mc": ["hid_reveal"], "gen": ["reveal"],
+        "mc": ["hid_reveal"], "gen": ["reveal", "text_classes"],
         "rule": "the reveal machine explored by TLC with the decrypted length field at every boundary against every value "
                 "size (each behaviour replayed with a crafted ciphertext), random values under wrong keys, empty and "
                 "misaligned values, every attribute-type class",
@@ -186,7 +186,7 @@ PROPS = {
         "exhaustive_thorough": True,
     },
     "C15": {
-        "mc": ["dec_loop3", "dec_loop4", "dec_avprec", "dec_ctllen"], "gen": ["ctl_records", "many_avps", "kind_pairs"],
+        "mc": ["dec_loop3", "dec_loop4", "dec_avprec", "dec_ctllen"], "gen": ["ctl_records", "many_avps", "kind_pairs", "record_product"],
         "rule": "all sequences of up to 3 (thorough: 4) records from 8 classes (valid Message Type, other valid, "
                 "undecodable, unknown type, vendor, hidden, length < 6, overrun) explored by TLC and replayed; random "
                 "assemblies of up to 12 good / bad records; error count and order, all-or-nothing",
@@ -340,8 +340,9 @@ def owns(prop, ev, tag):
             return died and ev.get("died") is None and any(w in msg for w in ("out of range", "unsafe precondition", "range end index", "range start index"))
         return e in DECODE_EVENTS and tag in ("reader-contract", "reader-diff")
     if prop == "C05":
+        # (a panic is C05's only where the specification accepts the input: tag `unaccepted`)
         return e in ("decode", "decode_avps", "decode_payload", "decode_opts", "decode_bits") and "fault" not in ev \
-            and (died or tag in ("verdict", "value"))
+            and tag in ("verdict", "value", "unaccepted")
     if prop in ("C03", "C04"):
         # the round-trip relation on the implementation's own values
         is_data = ev.get("kind") == "msg" and ev.get("v", {}).get("k") == "Data"
@@ -349,14 +350,15 @@ def owns(prop, ev, tag):
     if prop == "C06":
         if e == "bitmask":
             return tag in ("bitmask-layout", "bitmask-reencode")
-        return e in ("encode", "encode_seq", "roundtrip", "chain") and tag == "octets"
+        # (a refusal of a value that is within the size limits produces no octets at all: C06's, not C07's)
+        return e in ("encode", "encode_seq", "roundtrip", "chain") and tag in ("octets", "unexpected-panic")
     if prop == "C07":
         return e in ("encode", "encode_seq", "roundtrip", "hide", "hide_reveal") and tag in (
-            "length-field", "get-length", "get-length-spec", "unexpected-panic", "oversize-accepted")
+            "length-field", "get-length", "get-length-spec", "oversize-accepted")
     if prop == "C08":
         # consumed extent and independence of what follows; wrong values as such are C05's business
         return e in ("decode_seq", "decode_suffix", "avps_concat", "decode", "decode_avps", "roundtrip") and tag in (
-            "rem", "seq-start", "suffix-dependence", "concat-mismatch")
+            "rem", "seq-start", "suffix-dependence", "concat-mismatch", "consumed-declared")
     if prop == "C09":
         # judged against the implementation's own encoding into an empty writer
         return e in ("encode", "encode_seq") and tag in ("prefix-changed", "patch-outside", "position-dependent")
@@ -371,18 +373,19 @@ def owns(prop, ev, tag):
         # (a panic where the reference construction yields a value is a difference from the reference too)
         if e == "hide":
             return died or tag in ("hide-value", "hide-length", "hide-type", "hide-wire-form", "unexpected-panic")
-        if e == "hide_reveal":
-            return died or tag in ("hide-value", "hide-wire-form")
-        return e == "reveal" and (died or tag == "reveal-value")
+        # (C12 speaks about hiding only; what reveal makes of arbitrary hidden values is C11's / C13's)
+        return e == "hide_reveal" and tag in ("hide-value", "hide-wire-form")
     if prop == "C13":
         return e == "reveal" and ev.get("v", {}).get("k") == "Hidden" and (died or tag in ("reveal-kind", "reveal-accepts-bad"))
     if prop == "C14":
         # relations between the results under different option sets, on the implementation's own results
-        return e in ("decode_opts", "decode_bits") and (
-            died or tag in ("opts-monotone", "default-entry", "version-exact", "reserved-exact", "unused-exact", "bits-affect-result"))
+        # (a panic under every option set alike is C01's; one that makes the option sets DIFFER shows as opts-monotone)
+        return e in ("decode_opts", "decode_bits") and tag in (
+            "opts-monotone", "default-entry", "version-exact", "reserved-exact", "unused-exact", "bits-affect-result")
     if prop == "C15":
         # the acceptance rule applied to the implementation's own per-record results
-        return e == "ctl_records" and (died or tag in ("all-or-nothing", "error-count", "error-order", "empty-errors"))
+        # (a panic is neither acceptance nor rejection: C01's)
+        return e == "ctl_records" and tag in ("all-or-nothing", "error-count", "error-order", "empty-errors")
     if prop == "C16":
         if e == "decode" and ev.get("enum_many"):
             return died or tag == "verdict"          # a message full of unassigned codes must still be rejected
